@@ -221,28 +221,40 @@ func (x *X) EnableStalls(denom, budget int, durs ...time.Duration) {
 	}
 }
 
-// WaitFree (free mode, race tier) waits until the workload's goroutines have finished. If they
-// have not after ten minutes of virtual time they are blocked for good; when some of them wait on
-// instrumented (Helios) locks that is a deadlock in Helios code and a violation of prop, reported
-// with the wait-for cycle among the lock sites if there is one.
+// WaitFree (free mode, race tier) waits until the workload's goroutines have finished. Virtual time
+// only moves when every goroutine of the bubble is durably blocked, so each ten-minute look finds
+// the others asleep or waiting. Goroutines that wait on instrumented (Helios) locks at two looks in
+// a row with a wait-for cycle among them, or at six looks in a row without one (the holder is gone
+// or blocked itself), are blocked for good: a deadlock in Helios code and a violation of prop,
+// reported with the cycle among the lock sites if there is one. Goroutines that merely sleep
+// (workloads sleep across cleanup ticks and bucket expiries) are waited for.
 func (x *X) WaitFree(wg *sync.WaitGroup, prop, what string) bool {
 	finished := make(chan struct{})
 	go func() { wg.Wait(); close(finished) }()
-	select {
-	case <-finished:
-		return true
-	case <-time.After(10 * time.Minute): // virtual
+	persist := 0
+	for looks := 0; looks < 6*24*30; looks++ {
+		select {
+		case <-finished:
+			return true
+		case <-time.After(10 * time.Minute): // virtual
+		}
+		ws := simrt.FreeLockWaiters()
+		if len(ws) == 0 {
+			persist = 0
+			continue
+		}
+		persist++
+		cyc := simrt.FreeLockCycle()
+		if (cyc != nil && persist >= 2) || persist >= 6 {
+			key := ws
+			if cyc != nil {
+				key = cyc
+			}
+			x.Violate(prop, prop+"/deadlock{"+strings.Join(key, "+")+"}", "goroutines %s are blocked for good on Helios locks at %v", what, ws)
+			return false
+		}
 	}
-	ws := simrt.FreeLockWaiters()
-	key := ws
-	if cyc := simrt.FreeLockCycle(); cyc != nil {
-		key = cyc
-	}
-	if len(ws) > 0 {
-		x.Violate(prop, prop+"/deadlock{"+strings.Join(key, "+")+"}", "goroutines %s are blocked for good on Helios locks at %v", what, ws)
-	} else {
-		x.Probe("workload-did-not-finish")
-	}
+	x.Probe("workload-did-not-finish")
 	return false
 }
 
